@@ -64,7 +64,8 @@ def gen(rng, tier, i):
     p = Plan()
     # one master in three protects its own error_handler with catch() (as real mudlibs do): a catch() that runs between the
     # moment an error is raised and the moment the failing evaluation's own catch receives it
-    p.file('mcfg.h', mcfg({'EH_CATCH': 1} if rng.random() < 0.35 else {}))
+    r0 = rng.random()
+    p.file('mcfg.h', mcfg({'EH_CATCH': 1} if r0 < 0.3 else ({'EH_CATCH1': 1} if r0 < 0.5 else {})))
     p.cfg('Port', '4000:telnet')
     p.cfg('MaxEvaluationCost', 200000)
     p.cfg('MaxCallDepth', rng.choice((30, 50)))
